@@ -171,6 +171,9 @@ func decodeAt(buf []byte, off int, depth int) (Value, int, error) {
 		if n < 0 {
 			return Value{}, 0, &FramingError{off, "negative bulk length"}
 		}
+		if n > 512*1024*1024 {
+			return Value{}, 0, &FramingError{off, "bulk length beyond the protocol maximum (512 MB)"}
+		}
 		if int64(len(buf)-next) < n+2 {
 			return Value{}, 0, ErrIncomplete
 		}
